@@ -176,12 +176,26 @@ func dumpTable(t route.Table) tobs {
 		for _, r := range t[h] {
 			svcs := []string{}
 			for _, tg := range r.Targets {
-				svcs = append(svcs, tg.Service)
+				svcs = append(svcs, tg.Service+"\x00"+optsText(tg.Opts))
 			}
 			out = append(out, [3]interface{}{h, r.Path, svcs})
 		}
 	}
 	return out
+}
+
+// optsText renders a target's options as "k=v k=v", keys ascending (see Check/C02.v obs_of): the
+// options a target carries are part of what "the complete new table" means
+func optsText(m map[string]string) string {
+	ks := make([]string, 0, len(m))
+	for k := range m {
+		ks = append(ks, k)
+	}
+	sort.Strings(ks)
+	for i, k := range ks {
+		ks[i] = k + "=" + m[k]
+	}
+	return strings.Join(ks, " ")
 }
 
 func toStrings(v interface{}) []string {
@@ -1333,6 +1347,15 @@ func directedWatchScripts(r *rand.Rand, rounds int) []watchScript {
 			// NaN / infinite weights (rejected by the parser since 0b2a40e) and non-ASCII bytes through the loop
 			mk("watch-nan-inf-weight", format, [][2]interface{}{S(base), S(base + "\nroute add svc-n n.test/ http://10.0.0.9:80/ weight NaN"), S(v1), M("route add svc-i i.test/ http://10.0.0.8:80/ weight -Inf"), M("")})
 			mk("watch-non-ascii", format, [][2]interface{}{S(base), S(base + "\nroute add svc-\xc3\xa4 \xc3\xa4.test/ http://10.0.0.9:80/ tags \"\xe2\x80\xa8\""), S("route add \xff\xfe x.test/ http://h/\x85"), S(v1)})
+			// only the OPTIONS of a route change (same service, destination, weight, tags): the new table
+			// is the complete new one, options included; then back, then the option removed again
+			{
+				ob := "route add svc-a a.test/ http://10.0.0.1:5000/\nroute add svc-b b.test/foo http://10.0.0.2:8000/ tags \"t\""
+				o1 := "route add svc-a a.test/ http://10.0.0.1:5000/ opts \"strip=/x\"\nroute add svc-b b.test/foo http://10.0.0.2:8000/ tags \"t\" opts \"" +
+					pick(r, []string{"deny=ip:10.0.0.0/8", "host=dst", "prepend=/p", "auth=basic", "redirect=301", "proto=https tlsskipverify=true"}) + "\""
+				o2 := strings.Replace(o1, "strip=/x", pick(r, []string{"strip=/y", "strip=/x host=dst", "allow=ip:127.0.0.1"}), 1)
+				mk("watch-options-only", format, [][2]interface{}{S(ob), S(o1), S(o2), S(ob), S(o1), M("route add svc-a a.test/ http://10.0.0.1:5000/ opts \"strip=/m\""), M("")})
+			}
 			// white space only: the same table, a different text
 			mk("watch-whitespace-only", format, [][2]interface{}{S(base), S(base + "\n"), S(base + " "), S(strings.Replace(base, " ", "  ", 3)), S(strings.Replace(base, "\n", "\r\n", -1)), S(base + "\n\n"), M("\n"), M(" "), M(""), S("\t" + base)})
 		}
@@ -1471,7 +1494,10 @@ func loopCases(run *vh.Run) {
 			defs, class := genDefs(r)
 			if class == "" || d == 3 {
 				// an undecodable body: the table must stay as it is
-				docs = append(docs, pick(r, []string{"{", `{"cmd":1}`, `[{"weight":"x"}]`, "[1,2]", ""}))
+				// (incl. a list cut off between / inside / before its definitions - a source that died
+				// mid-answer: none of them is a list of definitions; a complete list followed by other
+				// bytes IS accepted by json.Decoder.Decode, which reads one value, and is not generated)
+				docs = append(docs, pick(r, []string{"{", `{"cmd":1}`, `[{"weight":"x"}]`, "[1,2]", "", `[{"cmd":"route add","service":"cut","src":"cut.test/","dst":"http://h/"}`, `[{"cmd":"route add","service":"cut","src":"cut.test/","dst":"http://h/"},`, `[`, `[{"cmd":"route add","service":"cut","src":"cut.test/","dst":"http://h/"},{"cmd":"route add","service":"cut2","src":"cut2.test/"`}))
 				cj.defs = append(cj.defs, nil)
 				cj.class = append(cj.class, "custom-backend-undecodable")
 				cj.reset = append(cj.reset, false)
@@ -1522,7 +1548,7 @@ func loopCases(run *vh.Run) {
 		for d := 0; d < 6; d++ {
 			switch kind := auxRng.Intn(8); {
 			case kind == 0:
-				docs = append(docs, pick(auxRng, []string{"{", `{"cmd":1}`, `[{"weight":"x"}]`, "[1,2]", "", `"routes"`, "42"}))
+				docs = append(docs, pick(auxRng, []string{"{", `{"cmd":1}`, `[{"weight":"x"}]`, "[1,2]", "", `"routes"`, "42", `[{"cmd":"route add","service":"cut","src":"cut.test/","dst":"http://h/"}`, `[{"cmd":"route add","service":"cut","src":"cut.test/","dst":"http://h/"},`, `[`, `[{"cmd":"route add","service":"cut","src":"cut.test/","dst":"http://h/"},{"cmd":"route add","service":"cut2","src":"cut2.test/"`}))
 				pj.bodies = append(pj.bodies, vh.None)
 				pj.verdicts = append(pj.verdicts, vh.Err(0))
 				pj.human = append(pj.human, "undecodable")
@@ -1589,7 +1615,35 @@ func loopCases(run *vh.Run) {
 	jobs = append(jobs, wJob{Kind: "custom", Docs: []string{
 		`!reset![{"cmd":"route add","service":"svc-a","src":"a.test/","dst":"http://10.0.0.1:80/"}]`, `null`, `{}`, `"routes"`, `42`, ` null `, `true`}})
 
+	// a poll body cut off before, between or inside its definitions (the source died mid-answer):
+	// no list of definitions was received, the active table stays as it is
+	cutJob := len(jobs)
+	jobs = append(jobs, wJob{Kind: "custom", Docs: []string{
+		`!reset![{"cmd":"route add","service":"svc-a","src":"a.test/","dst":"http://10.0.0.1:80/"}]`,
+		`[`,
+		`[{"cmd":"route add","service":"cut","src":"cut.test/","dst":"http://h/"}`,
+		`[{"cmd":"route add","service":"cut","src":"cut.test/","dst":"http://h/"},`,
+		`[{"cmd":"route add","service":"cut","src":"cut.test/","dst":"http://h/"},{"cmd":"route add","service":"cut2","src":"cut2.test/"`,
+		`[{"cmd":"route add","service":"svc-a","src":"a.test/","dst":"http://10.0.0.1:80/"},{"cmd":"route add","service":"svc-z","src":"z.test/","dst":"http://10.0.0.9:80/"}`,
+		`[ `}})
+
 	lines, done, crashLog := runDriver(run, jobs)
+	if ls := lines[cutJob]; crashLog[cutJob] != "" || len(ls) != len(jobs[cutJob].Docs) {
+		run.Violation(run.NextID(), "custom backend driver: the cut-off body job did not complete: "+crashLog[cutJob], lines[cutJob])
+	} else {
+		for k := 1; k < len(ls); k++ {
+			failed := false
+			for _, m := range ls[k].Msgs {
+				if strings.HasPrefix(m, "Error") {
+					failed = true
+				}
+			}
+			if !failed || len(ls[k].Table) != 1 {
+				run.Violation(run.NextID(), "custom backend: a poll body cut off before the end of its definition list was not rejected with the active table left alone (a partial list was installed)",
+					map[string]interface{}{"body": jobs[cutJob].Docs[k], "reported": ls[k].Msgs, "table": ls[k].Table})
+			}
+		}
+	}
 	if crashLog[nullJob] != "" {
 		run.Violation(run.NextID(), "custom backend: a poll body `null` crashed the process (NewTableCustom(nil) dereferences the nil definition list; no recover in the polling goroutine): "+crashLog[nullJob], "null")
 	} else if ls := lines[nullJob]; len(ls) != 7 {
